@@ -201,8 +201,48 @@ func runEntryPoints(data []byte, full bool) (string, error) {
 			}
 		}
 	}
+	// the chunk-level readers of the demuxer package: walk the file chunk by chunk, and probe a few other offsets
+	if err := walkChunks(data); err != nil {
+		return out, err
+	}
+	// the animation reader through an io.Reader (not only DecodeBytes), delivered in another legal way
+	rk := readerKinds[(len(data)+int(sum8(data)))%len(readerKinds)]
+	if len(data) <= 1<<16 || rk.Name != "onebyte" {
+		anR, errR := animation.Decode(rk.New(data))
+		anB, errB := animation.DecodeBytes(data)
+		if (errR == nil) != (errB == nil) {
+			return out, fmt.Errorf("animation.Decode through a %s reader err=%v, DecodeBytes err=%v", rk.Name, errR, errB)
+		}
+		if errR == nil && (len(anR.Frames) != len(anB.Frames) || anR.CanvasWidth != anB.CanvasWidth || anR.CanvasHeight != anB.CanvasHeight || anR.LoopCount != anB.LoopCount) {
+			return out, fmt.Errorf("animation.Decode through a %s reader: %d frames %dx%d loop %d, DecodeBytes: %d frames %dx%d loop %d", rk.Name,
+				len(anR.Frames), anR.CanvasWidth, anR.CanvasHeight, anR.LoopCount, len(anB.Frames), anB.CanvasWidth, anB.CanvasHeight, anB.LoopCount)
+		}
+		cfgR, errCR := webp.DecodeConfig(rk.New(data))
+		if (errCR == nil) != (errC == nil) || (errC == nil && (cfgR.Width != cfg.Width || cfgR.Height != cfg.Height || cfgR.ColorModel != cfg.ColorModel)) {
+			return out, fmt.Errorf("DecodeConfig through a %s reader: %v %dx%d, through bytes.Reader: %v %dx%d", rk.Name, errCR, cfgR.Width, cfgR.Height, errC, cfg.Width, cfg.Height)
+		}
+		ftR, errFR := webp.GetFeatures(rk.New(data))
+		if (errFR == nil) != (errF == nil) || (errF == nil && *ftR != *ft) {
+			return out, fmt.Errorf("GetFeatures through a %s reader: %v %+v, through bytes.Reader: %v %+v", rk.Name, errFR, ftR, errF, ft)
+		}
+	}
 	if !full {
 		return out + "-hdronly", nil
+	}
+	if len(data) <= 1<<16 || rk.Name != "onebyte" {
+		imgR, errIR := webp.Decode(rk.New(data))
+		imgB, errIB := webp.Decode(bytes.NewReader(data))
+		if (errIR == nil) != (errIB == nil) {
+			return out, fmt.Errorf("Decode through a %s reader err=%v, through bytes.Reader err=%v", rk.Name, errIR, errIB)
+		}
+		if errIR == nil {
+			if err := checkImageWellFormed(imgR); err != nil {
+				return out, fmt.Errorf("Decode (%s reader): %v", rk.Name, err)
+			}
+			if va, vb := viewOf(imgR, nil), viewOf(imgB, nil); va.Type != vb.Type || !bytes.Equal(va.Pix, vb.Pix) {
+				return out, fmt.Errorf("Decode through a %s reader and through a bytes.Reader return different pictures", rk.Name)
+			}
+		}
 	}
 	img, errI := webp.Decode(bytes.NewReader(data))
 	mark(errI == nil)
@@ -258,8 +298,73 @@ func runEntryPoints(data []byte, full bool) (string, error) {
 				return out, fmt.Errorf("AnimDecoder yields more canvases than frames")
 			}
 		}
+		// Reset and replay: same number of canvases, no panic
+		dec.Reset()
+		again := 0
+		for dec.HasNext() {
+			if _, _, err := dec.NextFrame(); err != nil {
+				break
+			}
+			if again++; again > len(an.Frames) {
+				return out, fmt.Errorf("AnimDecoder yields more canvases than frames after Reset")
+			}
+		}
+		if again != steps {
+			return out, fmt.Errorf("AnimDecoder played %d canvases, after Reset %d", steps, again)
+		}
 	}
 	return out, nil
+}
+
+func sum8(b []byte) (s byte) {
+	for i := 0; i < len(b); i += 1 + len(b)/64 {
+		s += b[i]
+	}
+	return
+}
+
+// walkChunks drives mux.ReadChunkHeader / mux.ReadChunk over the file the way a chunk walker would (from offset 12,
+// advancing by the consumed count) and at a few other offsets. A success must describe bytes that exist.
+func walkChunks(data []byte) error {
+	one := func(off int) (int, error) {
+		d := data[off:]
+		id, size, errH := mux.ReadChunkHeader(d)
+		ck, n, err := mux.ReadChunk(d)
+		if errH != nil && err == nil {
+			return 0, fmt.Errorf("mux.ReadChunk at %d succeeds although ReadChunkHeader fails: %v", off, errH)
+		}
+		if err != nil {
+			return 0, nil
+		}
+		if ck.ID != id || ck.Size != size || uint32(len(ck.Data)) != size || n < 8+int(size) || n > 8+int(size)+1 || n > len(d) {
+			return 0, fmt.Errorf("mux.ReadChunk at %d of %d: id %x/%x size %d/%d len(Data) %d consumed %d", off, len(data), ck.ID, id, ck.Size, size, len(ck.Data), n)
+		}
+		if size > 0 && &ck.Data[0] != &d[8] {
+			// documented as a view or a copy? either is fine; only the contents matter
+			if !bytes.Equal(ck.Data, d[8:8+int(size)]) {
+				return 0, fmt.Errorf("mux.ReadChunk at %d returns other bytes than the payload", off)
+			}
+		}
+		return n, nil
+	}
+	for off, steps := 12, 0; off <= len(data) && steps < 20000; steps++ {
+		n, err := one(off)
+		if err != nil {
+			return err
+		}
+		if n == 0 {
+			break
+		}
+		off += n
+	}
+	for _, off := range []int{0, 1, 8, len(data) - 8, len(data) - 7, len(data) - 1, len(data)} {
+		if off >= 0 && off <= len(data) {
+			if _, err := one(off); err != nil {
+				return err
+			}
+		}
+	}
+	return nil
 }
 
 type c05Result struct {
